@@ -12,6 +12,8 @@ use serde::{Deserialize, Serialize};
 pub const STRUCT_NAMES: &[&str] = &[
     "A", "AA", "Ab", "B", "Zed", "a", "Person2", "Bytes", "Uint", "_x", "Mail", "Z", "b", "Aa", "Order", "aa", "Int8x",
     "Node", "M", "m", "A$", "A$b", "Zed$1", "$x", "Mail$Box", "a$",
+    // struct names that begin like an atomic type keyword without being one
+    "interval", "integer", "bytesLike", "addressBook", "boolean", "stringly", "uintMax", "bool_", "bytes_x", "int_", "uint256x", "bytes32s",
 ];
 pub const MEMBER_NAMES: &[&str] = &[
     "a", "b", "from", "to", "value", "bytes", "name", "A", "B", "data", "x1", "_y", "uint256", "Zed", "id", "next",
@@ -167,6 +169,13 @@ pub fn gen_graph(u: &mut U) -> TypeGraph {
 }
 
 fn gen_member_ty(u: &mut U, i: usize, n: usize, names: &[String]) -> Ty {
+    if u.ratio(1, 40) {
+        // an array of many dimensions (up to the 64 the tool is expected to take), sizes 1 or dynamic
+        let dims = [4usize, 8, 16, 31, 32, 33, 48, 63, 64][u.below(9)];
+        let base = atomic(u);
+        let dynamic_from = u.below(dims + 1);
+        return (0..dims).fold(base, |t, k| Ty::Array(Box::new(t), if k >= dynamic_from || u.ratio(1, 10) { None } else { Some(1) }));
+    }
     match u.below(20) {
         0..=8 => atomic(u),
         9..=13 => {
@@ -245,7 +254,7 @@ impl ValGen<'_> {
                                     b"0123456789abcdef"[u.below(16)] as char
                                 }
                             }
-                            _ => ['\\', '"', '\n', '\u{0}', '\u{1f}', '\u{7f}', '\u{e9}', '\u{1f600}', ' ', '/'][u.below(10)],
+                            _ => ['\\', '"', '\n', '\u{0}', '\u{1f}', '\u{7f}', '\u{e9}', '\u{1f600}', ' ', '/', '\u{feff}', '\u{200b}', '\u{2028}', '\u{fffd}', '\r', '\u{a0}', '\u{1a}'][u.below(17)],
                         })
                         .collect();
                     Val::Str(s)
